@@ -83,7 +83,12 @@ fn main() {
             let tier = Tier::parse(args.get(3).map(String::as_str).unwrap_or("")).unwrap_or_else(|| usage());
             let idx: u64 = args.get(4).and_then(|s| s.parse().ok()).unwrap_or_else(|| usage());
             let c = find(&id);
-            let seed = framework::case_seed(framework::base_seed(), &id, idx);
+            // The seed recorded in a replay file wins over the one derived
+            // from VERIF_SEED.
+            let seed = std::env::var("VERIF_CASE_SEED")
+                .ok()
+                .and_then(|s| s.parse().ok())
+                .unwrap_or_else(|| framework::case_seed(framework::base_seed(), &id, idx));
             let r = sim::on_big_stack(move || c.run_case(idx, seed, tier));
             println!("{}", serde_json::to_string_pretty(&r).unwrap());
         }
